@@ -166,20 +166,18 @@ def nominal (f : Font) (c : Nat) : Option Nat :=
 
 /-! ## metrics -/
 
-/-- `x as i16` for an integer expression computed in `i16` arithmetic (release build: wraps) -/
-def wrapI16 (x : Int) : Int := (x + 32768) % 65536 - 32768
-
 /-- src: face.rs::glyph_h_advance -/
 def hAdvance (f : Font) (g : Nat) : Int :=
   match f.hmtx with
   | some h => (((h g).getD 0 : Nat) : Int)        -- `unwrap_or(0)`
   | none => ((f.upem : Nat) : Int)
 
-/-- src: face.rs::glyph_v_advance  (`-(glyph_advance(glyph, true) as i32)`) -/
+/-- src: face.rs::glyph_v_advance  (`-(glyph_advance(glyph, true) as i32)`; without vmtx the
+    advance is `i32::from(ascender) - i32::from(descender)`: computed in i32, no i16 wrap) -/
 def vAdvance (f : Font) (g : Nat) : Int :=
   match f.vmtx with
   | some v => -(((v g).getD 0 : Nat) : Int)
-  | none => -(wrapI16 (f.ascender - f.descender))
+  | none => -(f.ascender - f.descender)
 
 /-- src: face.rs::glyph_h_origin -/
 def hOrigin (f : Font) (g : Nat) : Int := (hAdvance f g).tdiv 2
